@@ -36,6 +36,21 @@ CLAIMED = {
   note="Real-code schedules are sampled (seeded perturbation through the Progress callbacks), the protocol is exhaustive in the model. Callback timing (Handle after NewCluster, file order = Written order) is policy level and reported as drift only.",
   technique="TLA+ spec (ClusterPipeline.tla, safety + liveness over all schedules) model-checked with TLC + trace validation of perturbed real runs (ClusterPipelineTrace.tla, ContentPackTrace.tla)",
   design="5 C08"),
+ "C10": dict(
+  text="Packaging.tla: packs are identities held by files (container or single), the manifest records locations, the reader resolves a pack inside the entry-point file first, then at its recorded location, identity deciding. TLC explores every packaging mode, concat of every subset of files, prefix embedding, removals / replacements / relocations (27k states) and checks SameLogicalContent, IdentityIsUuid, MissingIsReported, PresentStillReads (the pinned locator, modelled as PinnedLocate, violates them). Every configuration is produced with the real creator and tools (3 packagings, concat in every order and of every subset containing the entry point, prefixes of 1/63/64/4096 bytes, 0-2 extra content packs), dumped through reader::Container and compared item by item with the logical container; PackagingTrace.tla accepts only the resolutions Locate allows, an empty diff and a true check.",
+  note="Trusted: TLC, tools/jbkdec.py for which file holds which pack identity, the expected logical dump computed from the scenario alone.",
+  technique="TLA+ spec (Packaging.tla) model-checked with TLC + exhaustive replay of the configuration space through the real code + trace validation (PackagingTrace.tla)",
+  design="5 C10"),
+ "C11": dict(
+  text="Same specification as C10; configurations are containers with 3 content packs in every packaging where each content-pack file is independently kept, removed, replaced by a directory or replaced by a different valid pack (all 4^k combinations in thorough). For each, every entry and every content is read: PackagingTrace.tla requires 'missing' with that pack's uuid and recorded location (also through get_bytes) exactly for the packs Locate cannot find by identity, 'found' with the original bytes for the others, an empty diff on everything available and a true container check.",
+  note="Trusted as C10. The foreign pack is a valid content pack of another container created the same way.",
+  technique="TLA+ spec (Packaging.tla) model-checked with TLC + exhaustive fault-configuration replay + trace validation (PackagingTrace.tla)",
+  design="5 C11"),
+ "C12": dict(
+  text="Packaging.tla SetLocation + the masked manifest check of the independent decoder: sequences of 1-5 rewrites on manifests standalone and inside container files (created directly and by concat, so at several offsets), every listed pack and an unknown uuid, strings of 0/1/212/213 bytes and multi-byte UTF-8 ending at 213. After each step PackagingTrace.tla requires: no byte changed outside the rewritten pack-info block, inside it only the location field and the block CRC, every CRC and the masked global hash verify (independent decoder), ManifestPack::new opens and check() is true, all other pack infos unchanged, the new location reads back through decoder and library, and - after moving the pack's file to the new location - the full dump is unchanged. An unknown uuid leaves the file byte-identical.",
+  note="Trusted: TLC, tools/jbkdec.py (own CRC-32C, BLAKE3 and mask).",
+  technique="TLA+ spec (Packaging.tla SetLocation) + trace validation of rewrite histories (PackagingTrace.tla) with an independent byte-level oracle",
+  design="5 C12"),
 }
 
 REASON_TODO = "check not built yet (work in progress; see DESIGN.md section 9 for the order of work)"
